@@ -281,6 +281,17 @@ def work(payload, skip, report):
     return acc
 
 
+def replay(case):
+    if "args" not in case:
+        return None
+    ctx = make_ctx(["-"])
+    try:
+        out = check_args(ctx, case["args"])
+    finally:
+        close_ctx(ctx)
+    return [{"oracle": o, "observed": ob, "expected": ex} for o, ob, ex in out]
+
+
 def main(run):
     q = run.tier == "quick"
     chunks = [("args", (), 1)]
@@ -315,4 +326,4 @@ def main(run):
         "equivalent call of expandTemplate{title,args} is the numbered-named form {{title|k=v...}} (keys sorted as strings); of callParserFunction(name, a1, a2) it is {{name:a1|a2}}",
         "a trailing newline of a positional value is removed for Lua (documented in make_frame); preprocess is compared at page level",
     ]
-    return run.finish(cov, assumptions, replay_fn=None)
+    return run.finish(cov, assumptions, replay_fn=replay)
